@@ -93,8 +93,6 @@ section gs
 set_option linter.unusedSectionVars false
 variable {K : Type} [Add K] [Mul K] [Sub K] [Zero K] [One K] [Div K]
 
-theorem tasks_length (level : Array Nat) (nt : Nat) : (tasks level nt).length = nt := by simp [tasks]
-
 /-- **Gauss–Seidel under any team**: tables built for `nt ≥ 1` threads, region executed by a team of `team ≥ 1`
 threads, any interleaving of the team's threads: the sweep equals the serial sweep (no algebraic law: bit-identical) -/
 theorem gs_team_eq_serial (fwd : Bool) (A : CRS K) (rhs : Vec K) (nt team : Nat) (hnt : 1 ≤ nt) (ht : 1 ≤ team)
@@ -109,10 +107,6 @@ example (A : CRS Int) (rhs x : Vec Int) :
     gsParallelSweep A rhs (teamThreadOrderSchedule (tasks (gsLevels true (pattern A)) 8) 8 3 (nlev (gsLevels true (pattern A)))) x
       = gsSerialSweep true A rhs x :=
   gs_team_eq_serial true A rhs 8 3 (by decide) (by decide) _ (team_thread_order_is_execution _ 8 3 _) x
-
-theorem constructorLoc_length (A : CRS K) (hasD : Bool) (Dv : Vec K) (ln : Array Nat × Nat) (nt : Nat) :
-    (evTable (constructorLoc A hasD Dv ln nt)).length = nt := by
-  simp [evTable, constructorLoc_eq, constructorLit_length]
 
 /-- … for the literal loops over the literal thread-local tables (events `(tid, r)`) -/
 theorem gs_literal_team_eq_serial (fwd : Bool) (A : CRS K) (rhs : Vec K) (nt team : Nat) (hnt : 1 ≤ nt) (ht : 1 ≤ team)
